@@ -43,6 +43,12 @@ const c36F134 = "F134"
 // read loop).  The ping barrier of the harness counts as one of them.
 const c36F134Behind = 17
 
+// F135 (found by the thorough tier of this check): CHANNEL_REQUESTs addressed
+// to a channel the Go side opened and the peer has not answered yet are
+// queued on that channel's request stream, which the application cannot
+// service because OpenChannel has not returned: the 17th blocks mux.loop.
+const c36F135 = "F135"
+
 type c36Step struct {
 	Op string `json:"op"`
 	// target selection: "live" (index T into the live channels), "unknown", "closed", "pending" (Go-side open awaiting an answer)
@@ -129,6 +135,15 @@ func genC36Plan(t *rapid.T) *c36Plan {
 			st.Op = "chreq"
 			st.Tgt, st.T = tgt("rtgt")
 			st.B = pick(t, "rwant", 2) == 0
+			if pick(t, "rpending", 8) == 0 {
+				// requests for a channel the Go side opened and the peer has not answered yet
+				st.Tgt = "pending"
+				if pick(t, "rburst", 3) == 0 {
+					for k := 0; k < 17; k++ {
+						p.Steps = append(p.Steps, st)
+					}
+				}
+			}
 		case op < 72:
 			st.Op = "chreply"
 			st.Tgt, st.T = tgt("ptgt")
@@ -239,19 +254,21 @@ type c36OpenRes struct {
 }
 
 type c36Stats struct {
-	ended       string // "" while alive, else the step that ended the connection
-	steps       int
-	strayMax    int
-	staleMax    int
-	replyChecks int
-	unknownFail int
-	dupConfirm  int
-	liveMax     int
-	dataBytes   int
-	skipped     int
-	floodMax    int
-	excluded134 int
-	executed    []int
+	ended         string // "" while alive, else the step that ended the connection
+	steps         int
+	strayMax      int
+	staleMax      int
+	replyChecks   int
+	unknownFail   int
+	dupConfirm    int
+	liveMax       int
+	dataBytes     int
+	skipped       int
+	floodMax      int
+	excluded134   int
+	excluded135   int
+	pendingReqMax int
+	executed      []int
 }
 
 func (r *c36Run) peerLoop() {
@@ -534,6 +551,22 @@ func runC36(p *c36Plan) (string, c36Stats, error) {
 	_, f131Listed := knownFinding(c36F131)
 	if os.Getenv("VF_C36_IGNORE_F131") != "" {
 		f131Listed = false
+	}
+	_, f135Listed := knownFinding(c36F135)
+	if os.Getenv("VF_C36_IGNORE_F135") != "" {
+		f135Listed = false
+	}
+	pendingReqs := map[uint32]int{}
+	// abandon forgets a local open whose outcome the script has made unpredictable
+	abandon := func(id uint32) {
+		for i, g := range r.pending {
+			if g == id {
+				r.pending = append(r.pending[:i], r.pending[i+1:]...)
+				r.abandoned = append(r.abandoned, r.lopenRes[i])
+				r.lopenRes = append(r.lopenRes[:i], r.lopenRes[i+1:]...)
+				return
+			}
+		}
 	}
 	_, f134Listed := knownFinding(c36F134)
 	if os.Getenv("VF_C36_IGNORE_F134") != "" {
@@ -827,6 +860,16 @@ func runC36(p *c36Plan) (string, c36Stats, error) {
 			}
 		case "chreq":
 			id, c, kind := r.resolve(st)
+			if kind == "pending" {
+				if f135Listed && pendingReqs[id] >= 16 {
+					r.stats.excluded135++
+					continue // exactly the recorded class: a 17th request for an unanswered open
+				}
+				pendingReqs[id]++
+				if pendingReqs[id] > r.stats.pendingReqMax {
+					r.stats.pendingReqMax = pendingReqs[id]
+				}
+			}
 			r.mu.Lock()
 			nf := len(r.chFailures)
 			r.mu.Unlock()
@@ -1059,6 +1102,11 @@ func runC36(p *c36Plan) (string, c36Stats, error) {
 			for k := 0; k < count; k++ {
 				r.send(body)
 			}
+			if kind == "pending" {
+				// the waiting OpenChannel call takes the first message it is handed: its result is
+				// no longer determined by the peer's answer
+				abandon(id)
+			}
 			if c != nil {
 				c.msgQ += count
 				if c.msgQ > r.stats.strayMax && r.stats.strayMax >= 0 {
@@ -1191,6 +1239,9 @@ func c36Classes(p *c36Plan, st c36Stats) []string {
 		}
 		cl = append(cl, "ended-by:"+w)
 	}
+	if st.pendingReqMax > 16 {
+		cl = append(cl, "requests-for-unanswered-open>16")
+	}
 	if st.floodMax > 16 {
 		cl = append(cl, "rejected-packet-followed-by>16-packets")
 	}
@@ -1221,6 +1272,18 @@ func c36F131Witness(n int) (string, error) {
 	}}
 	os.Setenv("VF_C36_IGNORE_F131", "1")
 	defer os.Unsetenv("VF_C36_IGNORE_F131")
+	v, _, err := runC36(p)
+	return v, err
+}
+
+// c36F135Witness: n channel requests for an open the peer has not answered, then the confirmation.
+func c36F135Witness(n int) (string, error) {
+	p := &c36Plan{GoIsClient: true, Seed: 135, Steps: []c36Step{{Op: "lopen"}}}
+	for i := 0; i < n; i++ {
+		p.Steps = append(p.Steps, c36Step{Op: "chreq", Tgt: "pending"})
+	}
+	os.Setenv("VF_C36_IGNORE_F135", "1")
+	defer os.Unsetenv("VF_C36_IGNORE_F135")
 	v, _, err := runC36(p)
 	return v, err
 }
@@ -1257,7 +1320,7 @@ func testC36Body(t *testing.T, c *ev.Collector, runPlans func(runOne func(p *c36
 		if st.strayMax < 0 {
 			c.Excluded()
 		}
-		for i := 0; i < st.excluded134; i++ {
+		for i := 0; i < st.excluded134+st.excluded135; i++ {
 			c.Excluded()
 		}
 		var key strings.Builder
@@ -1339,6 +1402,31 @@ func TestC36(t *testing.T) {
 					}
 				}
 				if _, listed := knownFinding(c36F134); !listed || n+1 < c36F134Behind {
+					c.Violation(what, "")
+					t.Fatalf("VF-VIOLATION: property=C36 %s", what)
+				}
+				c.Known(what)
+				break
+			}
+		}
+	}
+	if os.Getenv("VF_REPLAY_CASE") == "" {
+		for _, n := range []int{16, 17} {
+			writeCase("C36", map[string]any{"witness": "F135", "requests_for_unanswered_open": n})
+			v, err := c36F135Witness(n)
+			if err != nil {
+				c.Inconclusive(err.Error())
+				t.Fatalf("VF-INCONCLUSIVE: property=C36 %v", err)
+			}
+			c.Case(true, fmt.Sprintf("witness-f135|%d|%v", n, v != ""), fmt.Sprintf("witness:requests-for-unanswered-open=%d:stuck=%v", n, v != ""))
+			if v != "" {
+				what := fmt.Sprintf("F135 %d channel requests for a channel whose open the peer has not answered: %s", n, v)
+				if i := strings.Index(what, "(dump "); i > 0 {
+					if j := strings.Index(what[i:], ")"); j > 0 {
+						what = what[:i] + what[i+j+2:]
+					}
+				}
+				if _, listed := knownFinding(c36F135); !listed || n <= 16 {
 					c.Violation(what, "")
 					t.Fatalf("VF-VIOLATION: property=C36 %s", what)
 				}
